@@ -8,7 +8,7 @@
    ([hier_wfb v = true]: each NUMA node inside one die, each die inside one package), EVERY
    configuration the policy accepts, and every allocator. *)
 From Coq Require Import ZArith Bool List.
-From NV Require Import C16_Model C16_Proofs.
+From NV Require Import C16_Model C16_Proofs C16_Codec_Proofs C16_Sysfs_Proofs.
 Import ListNotations.
 Open Scope Z_scope.
 
@@ -149,3 +149,41 @@ Theorem C16_candidates_spec : forall v s id,
   exists n, find_node v id = Some n /\ vn_memtype n = 0 /\ vn_cpus n <> [].
 Proof. exact candidates_spec. Qed.
 Print Assumptions C16_candidates_spec.
+
+(* ---- part (a), string layer: the parsers the discovery uses invert the kernel's printers ---- *)
+
+(* cpulist files ("0-3,8,10-11"): every sorted duplicate-free id list *)
+Theorem C16_parse_print_cpulist : forall l, increasing l -> parse_cpulist (print_cpulist l) = Some l.
+Proof. exact parse_print_cpulist. Qed.
+Print Assumptions C16_parse_print_cpulist.
+
+(* space separated integer vectors (node*/distance): every list *)
+Theorem C16_parse_print_vec : forall l, parse_vec (print_vec l) = Some l.
+Proof. exact parse_print_vec. Qed.
+Print Assumptions C16_parse_print_vec.
+
+(* decimal integers (ids, sizes) *)
+Theorem C16_parse_print_N : forall n, parse_N (print_N n) = Some n.
+Proof. exact parse_print_N. Qed.
+Print Assumptions C16_parse_print_N.
+
+(* ---- part (a), assembly layer: components of  discover (render m) = Some (view m)  that are proved
+   for every well-formed machine.  (The remaining components -- memory-type inference and the
+   node -> package/die back-assignment -- and hence the assembled equation are validated by
+   evaluating [sysfs_case_diff] on every generated machine, not proved.) ---- *)
+
+(* every CPU record: online CPUs get package, die, cluster, core, thread siblings, node and their
+   caches with the sharing sets (shared cache objects de-duplicated as saveCache does); offline
+   CPUs keep the defaults; online / isolated flags follow the cpu/online and cpu/isolated files *)
+Theorem C16_discover_render_cpus : forall m, machine_wfb m = true ->
+  discover_cpus (canon (ids_where c_online c_id (m_cpus m))) (canon (ids_where c_isolated c_id (m_cpus m))) []
+                (map render_cpu (m_cpus m)) = Some (map view_cpu (m_cpus m)).
+Proof. exact discover_render_cpus. Qed.
+Print Assumptions C16_discover_render_cpus.
+
+(* discoverPackages: packages, their dies, CPU sets and node lists are exactly the grouping of the
+   machine's online CPUs (any machine) *)
+Theorem C16_discover_render_pkgs : forall m,
+  discover_pkgs (map view_cpu (m_cpus m)) = map (view_pkg m) (canon (map c_pkg (online_cpus m))).
+Proof. exact discover_render_pkgs. Qed.
+Print Assumptions C16_discover_render_pkgs.
